@@ -6,6 +6,7 @@ package main
 
 import (
 	"go/ast"
+	"go/constant"
 	"go/token"
 	"go/types"
 	"strings"
@@ -14,12 +15,14 @@ import (
 type pathCond struct {
 	Expr ast.Expr
 	Val  bool
+	At   int // how many statements the path had executed when the condition was taken
 }
 
 type dstate struct {
-	conds []pathCond
-	env   map[types.Object]ast.Expr
-	trace []ast.Stmt // simple statements executed so far
+	conds   []pathCond
+	env     map[types.Object]ast.Expr
+	trace   []ast.Stmt // simple statements executed so far
+	inlined ast.Stmt   // the assignment whose left-hand sides were just bound by inlining its call (transient)
 }
 
 type dpath struct {
@@ -46,6 +49,286 @@ type denum struct {
 	iterExit    *[]dstate                        // while the body of such a loop is run: where continue / break go
 	tsClause    map[ast.Expr]*ast.CaseClause     // synthetic type atoms → the clause taken (nil: default / no clause)
 	tsSwitch    map[ast.Expr]*ast.TypeSwitchStmt // … → their type switch
+	inlineVals  bool                             // value-returning package-local helpers called in simple statements are inlined: the caller's path forks per path of the helper, its results bound to what that path returns
+	callVars    map[*ast.CallExpr]types.Object   // the synthetic variable holding the result of an inlined call that is not assigned to a variable
+	inlStack    []*ast.BlockStmt                 // the bodies being enumerated in place (a recursive call stays a call)
+	substCalls  bool                             // (expand) bindings to calls are substituted too
+}
+
+// expand replaces locals by what they are bound to on the path, bindings to calls included: the expression in terms
+// of the function's inputs and the calls made, for a rule that asks where a value comes from (not for recording
+// conditions: a call is not re-evaluated where its result is used).
+func (d *denum) expand(e ast.Expr, env map[types.Object]ast.Expr) ast.Expr {
+	old := d.substCalls
+	d.substCalls = true
+	defer func() { d.substCalls = old }()
+	return d.subst(e, env, 0)
+}
+
+// callVar: the synthetic variable that holds, on each path, what an inlined helper call in argument position returned.
+func (d *denum) callVar(call *ast.CallExpr) types.Object {
+	if d.callVars == nil {
+		d.callVars = map[*ast.CallExpr]types.Object{}
+	}
+	if ob := d.callVars[call]; ob != nil {
+		return ob
+	}
+	ob := types.NewVar(call.Pos(), d.pkg, "·call", d.info.TypeOf(call))
+	d.callVars[call] = ob
+	return ob
+}
+
+// inlTarget: the function a call runs, when its body can be enumerated in place.
+type inlTarget struct {
+	ftype   *ast.FuncType
+	body    *ast.BlockStmt
+	recv    *ast.Ident // the receiver's name in the callee (nil: none)
+	recvArg ast.Expr
+	args    []ast.Expr
+}
+
+// resolveCall: a declared function or method of the package (d.decls), or — through the local the call goes through —
+// a function literal, a function value or a method value held on this state.
+func (d *denum) resolveCall(call *ast.CallExpr, env map[types.Object]ast.Expr) *inlTarget {
+	if call.Ellipsis.IsValid() {
+		return nil
+	}
+	fun := ast.Unparen(call.Fun)
+	if tv, ok := d.info.Types[fun]; ok && tv.IsType() {
+		return nil
+	}
+	var fn *types.Func
+	var sel *ast.SelectorExpr
+	if f := calleeOf(d.info, call); f != nil {
+		fn = f
+		sel, _ = fun.(*ast.SelectorExpr)
+	} else if id, ok := fun.(*ast.Ident); ok {
+		switch v := d.deref(id, env).(type) {
+		case *ast.FuncLit:
+			return d.checkTarget(&inlTarget{ftype: v.Type, body: v.Body, args: call.Args})
+		case *ast.Ident:
+			fn, _ = d.info.Uses[v].(*types.Func)
+		case *ast.SelectorExpr:
+			fn, _ = d.info.Uses[v.Sel].(*types.Func)
+			sel = v
+		}
+	}
+	if fn == nil {
+		return nil
+	}
+	fd := d.decls[fn]
+	if fd == nil || fd.Body == nil {
+		return nil
+	}
+	t := &inlTarget{ftype: fd.Type, body: fd.Body, args: call.Args}
+	if fd.Recv != nil {
+		if len(fd.Recv.List) == 1 && len(fd.Recv.List[0].Names) == 1 {
+			t.recv = fd.Recv.List[0].Names[0]
+		}
+		if sel == nil {
+			return nil
+		}
+		if s, ok := d.info.Selections[sel]; ok && s.Kind() == types.MethodExpr {
+			if len(call.Args) == 0 {
+				return nil
+			}
+			t.recvArg, t.args = call.Args[0], call.Args[1:]
+		} else {
+			t.recvArg = sel.X
+		}
+	}
+	return d.checkTarget(t)
+}
+
+func (d *denum) checkTarget(t *inlTarget) *inlTarget {
+	n := 0
+	for _, p := range t.ftype.Params.List {
+		if len(p.Names) == 0 {
+			return nil
+		}
+		n += len(p.Names)
+	}
+	if n != len(t.args) {
+		return nil
+	}
+	for _, b := range d.inlStack {
+		if b == t.body {
+			return nil // recursion: the call stays a call
+		}
+	}
+	return t
+}
+
+type inlResult struct {
+	state   dstate
+	results []ast.Expr
+}
+
+// runInlined enumerates the callee's paths from state s with the receiver and parameters bound to the arguments.
+func (d *denum) runInlined(t *inlTarget, s dstate, nres int, named []*ast.Ident) ([]inlResult, bool) {
+	sub := &denum{info: d.info, pkg: d.pkg, inits: d.inits, decls: d.decls, limit: d.limit, inlineDepth: d.inlineDepth + 1, opaqueLoops: true, loopsOnce: d.loopsOnce,
+		inlineVals: true, callVars: d.callVars, tsClause: d.tsClause, tsSwitch: d.tsSwitch, inlStack: append(append([]*ast.BlockStmt{}, d.inlStack...), t.body)}
+	argOf := func(arg ast.Expr) ast.Expr {
+		if inner, isCall := ast.Unparen(arg).(*ast.CallExpr); isCall {
+			if ob := d.callVars[inner]; ob != nil {
+				if b, has := s.env[ob]; has {
+					return b
+				}
+			}
+		}
+		return d.subst(arg, s.env, 0)
+	}
+	stt := dstate{conds: s.conds, env: s.env, trace: s.trace}
+	if t.recv != nil && t.recv.Name != "_" && t.recvArg != nil {
+		stt = stt.bind(d.info.Defs[t.recv], argOf(t.recvArg))
+	}
+	k := 0
+	for _, p := range t.ftype.Params.List {
+		for _, nm := range p.Names {
+			if nm.Name != "_" {
+				stt = stt.bind(d.info.Defs[nm], argOf(t.args[k]))
+			}
+			k++
+		}
+	}
+	sub.finish(sub.run(t.body.List, []dstate{stt}))
+	d.callVars, d.tsClause, d.tsSwitch = sub.callVars, sub.tsClause, sub.tsSwitch
+	if sub.undecided != "" {
+		return nil, false
+	}
+	var out []inlResult
+	for _, pth := range sub.paths {
+		if pth.Exit != "" {
+			return nil, false
+		}
+		var res []ast.Expr
+		switch {
+		case nres == 0:
+		case pth.Ret != nil && len(pth.Ret.Results) == nres:
+			res = pth.Ret.Results
+		case pth.Ret != nil && len(pth.Ret.Results) == 1 && nres > 1:
+			res = append(res, pth.Ret.Results[0])
+			for k := 1; k < nres; k++ {
+				res = append(res, &ast.IndexExpr{X: pth.Ret.Results[0], Index: &ast.BasicLit{Kind: token.INT, Value: string(rune('0' + k))}})
+			}
+		case len(named) == nres && (pth.Ret == nil || len(pth.Ret.Results) == 0):
+			for _, nm := range named {
+				res = append(res, nm)
+			}
+		default:
+			return nil, false
+		}
+		vals := make([]ast.Expr, len(res))
+		for k := range res {
+			vals[k] = d.subst(res[k], pth.Env, 0)
+		}
+		trace := pth.Trace
+		if pth.Ret != nil && len(trace) > 0 && trace[len(trace)-1] == ast.Stmt(pth.Ret) {
+			trace = trace[:len(trace)-1] // the callee's return statement is not a statement of the caller's path
+		}
+		out = append(out, inlResult{dstate{conds: pth.Conds, env: pth.Env, trace: trace}, vals})
+	}
+	return out, true
+}
+
+// inlineCallsIn forks the states over the paths of every helper that the simple statement st calls (innermost first):
+// package-local functions and methods, and function literals / function values held by locals. The results of a call
+// whose value the statement assigns are bound to the left-hand sides directly; a call in argument position is bound to
+// a synthetic variable (callVar); a call that is the whole statement is replaced by the statements of its body.
+func (d *denum) inlineCallsIn(st ast.Stmt, cur []dstate) []dstate {
+	if !d.inlineVals || d.decls == nil || d.inlineDepth >= 4 {
+		return cur
+	}
+	var calls []*ast.CallExpr
+	ast.Inspect(st, func(n ast.Node) bool {
+		if _, ok := n.(*ast.FuncLit); ok {
+			return false
+		}
+		if _, ok := n.(*ast.DeferStmt); ok {
+			return false
+		}
+		if call, ok := n.(*ast.CallExpr); ok {
+			calls = append(calls, call)
+		}
+		return true
+	})
+	if len(calls) == 0 {
+		return cur
+	}
+	var out []dstate
+	for _, s := range cur {
+		states := []dstate{s}
+		// innermost first: a later call in pre-order that lies inside an earlier one comes first
+		for i := len(calls) - 1; i >= 0 && d.undecided == ""; i-- {
+			call := calls[i]
+			whole := false
+			if es, ok := st.(*ast.ExprStmt); ok && ast.Unparen(es.X) == ast.Expr(call) {
+				whole = true
+			}
+			var next []dstate
+			for _, s1 := range states {
+				if s1.inlined != nil {
+					next = append(next, s1)
+					continue
+				}
+				t := d.resolveCall(call, s1.env)
+				if t == nil {
+					next = append(next, s1)
+					continue
+				}
+				var named []*ast.Ident
+				nres := 0
+				if t.ftype.Results != nil {
+					for _, r := range t.ftype.Results.List {
+						named = append(named, r.Names...)
+						if len(r.Names) == 0 {
+							nres++
+						} else {
+							nres += len(r.Names)
+						}
+					}
+				}
+				var lhs []ast.Expr
+				if as, ok := st.(*ast.AssignStmt); ok && len(as.Rhs) == 1 && ast.Unparen(as.Rhs[0]) == ast.Expr(call) && len(as.Lhs) == nres {
+					lhs = as.Lhs
+				}
+				if lhs == nil && nres != 1 && !whole {
+					next = append(next, s1)
+					continue
+				}
+				want := nres
+				if whole {
+					want = 0
+				}
+				res, ok := d.runInlined(t, s1, want, named)
+				if !ok {
+					next = append(next, s1) // this helper cannot be enumerated: the call stays an opaque call
+					continue
+				}
+				for _, r := range res {
+					ns := r.state
+					switch {
+					case whole:
+						ns.inlined = st
+					case lhs != nil:
+						for k, l := range lhs {
+							if id, isID := l.(*ast.Ident); isID && id.Name != "_" {
+								ns = ns.bind(d.info.ObjectOf(id), r.results[k])
+							}
+						}
+						ns.trace = append(append([]ast.Stmt{}, ns.trace...), st)
+						ns.inlined = st
+					default:
+						ns = ns.bind(d.callVar(call), r.results[0])
+					}
+					next = append(next, ns)
+				}
+			}
+			states = next
+		}
+		out = append(out, states...)
+	}
+	return out
 }
 
 func (d *denum) noteTS(atom ast.Expr, cc *ast.CaseClause, s *ast.TypeSwitchStmt) {
@@ -91,7 +374,7 @@ func (d *denum) typeAtomHolds(atom ast.Expr, kind string) bool {
 }
 
 func (s dstate) with(e ast.Expr, v bool) dstate {
-	n := dstate{conds: append(append([]pathCond{}, s.conds...), pathCond{e, v}), env: s.env, trace: s.trace}
+	n := dstate{conds: append(append([]pathCond{}, s.conds...), pathCond{e, v, len(s.trace)}), env: s.env, trace: s.trace}
 	return n
 }
 
@@ -104,11 +387,23 @@ func (d *denum) rec(s dstate, e ast.Expr, v bool) dstate {
 // contradicts: the state already took the same pure field read (x.f.g, nothing assigned to it on the way) with the
 // opposite truth value — the combination is infeasible.
 func (d *denum) contradicts(s dstate, e ast.Expr, v bool) bool {
-	se, ok := ast.Unparen(e).(*ast.SelectorExpr)
-	if !ok {
+	e = ast.Unparen(d.subst(e, s.env, 0))
+	// the pure part the atom reads: x.f.g, or x in `x == nil` / `x != nil`
+	var read ast.Expr
+	switch x := e.(type) {
+	case *ast.SelectorExpr:
+		read = x
+	case *ast.BinaryExpr:
+		if (x.Op == token.EQL || x.Op == token.NEQ) && d.inlineVals {
+			if id, ok := ast.Unparen(x.Y).(*ast.Ident); ok && id.Name == "nil" {
+				read = ast.Unparen(x.X)
+			}
+		}
+	}
+	if read == nil {
 		return false
 	}
-	root := ast.Expr(se)
+	root := read
 	for {
 		if x, ok := ast.Unparen(root).(*ast.SelectorExpr); ok {
 			root = x.X
@@ -116,22 +411,50 @@ func (d *denum) contradicts(s dstate, e ast.Expr, v bool) bool {
 		}
 		break
 	}
-	if _, ok := ast.Unparen(root).(*ast.Ident); !ok {
+	rid, ok := ast.Unparen(root).(*ast.Ident)
+	if !ok {
 		return false
 	}
-	txt := types.ExprString(se)
-	for _, t := range s.trace {
-		if as, ok := t.(*ast.AssignStmt); ok {
-			for _, l := range as.Lhs {
-				lt := types.ExprString(l)
-				if lt == txt || strings.HasPrefix(txt, lt+".") {
-					return false // assigned on the way: the two reads may differ
+	rootOf := func(x ast.Expr) types.Object {
+		x = ast.Unparen(x)
+		if be, ok := x.(*ast.BinaryExpr); ok {
+			x = ast.Unparen(be.X)
+		}
+		for {
+			if se, ok := x.(*ast.SelectorExpr); ok {
+				x = ast.Unparen(se.X)
+				continue
+			}
+			break
+		}
+		if id, ok := x.(*ast.Ident); ok {
+			return d.info.ObjectOf(id)
+		}
+		return nil
+	}
+	txt := types.ExprString(e)
+	rtxt := types.ExprString(read)
+	for _, pc := range s.conds {
+		if pc.Val == v || types.ExprString(pc.Expr) != txt || rootOf(pc.Expr) != d.info.ObjectOf(rid) {
+			continue
+		}
+		// the same read with the opposite outcome, and nothing assigned to what it reads in between
+		assigned := false
+		from := pc.At
+		if _, isSel := e.(*ast.SelectorExpr); isSel {
+			from = 0 // (field reads: as before, any assignment on the path counts)
+		}
+		for _, t := range s.trace[min(from, len(s.trace)):] {
+			if as, ok := t.(*ast.AssignStmt); ok {
+				for _, l := range as.Lhs {
+					lt := types.ExprString(l)
+					if (lt == rtxt || strings.HasPrefix(rtxt, lt+".")) && (from == 0 || rootOf(l) == d.info.ObjectOf(rid)) {
+						assigned = true
+					}
 				}
 			}
 		}
-	}
-	for _, pc := range s.conds {
-		if pc.Val != v && types.ExprString(pc.Expr) == txt {
+		if !assigned {
 			return true
 		}
 	}
@@ -145,7 +468,7 @@ func (d *denum) subst(e ast.Expr, env map[types.Object]ast.Expr, depth int) ast.
 	switch x := e.(type) {
 	case *ast.Ident:
 		ob := d.info.ObjectOf(x)
-		if b, ok := env[ob]; ok && ob != nil && !refersTo(d.info, b, ob) && callFree(b) {
+		if b, ok := env[ob]; ok && ob != nil && !refersTo(d.info, b, ob) && (callFree(b) || d.substCalls) {
 			return d.subst(b, env, depth+1)
 		}
 		return x
@@ -169,7 +492,56 @@ func (d *denum) subst(e ast.Expr, env map[types.Object]ast.Expr, depth int) ast.
 	case *ast.SelectorExpr:
 		// only a field selection on a substituted local is rewritten; package-qualified names and methods stay
 		if sel, ok := d.info.Selections[x]; ok && sel.Kind() == types.FieldVal {
-			if in := d.subst(x.X, env, depth); in != x.X {
+			in := d.subst(x.X, env, depth)
+			if id, isID := ast.Unparen(x.X).(*ast.Ident); isID && in == x.X {
+				// a local bound to a struct literal some of whose fields are computed by calls: the literal itself is not
+				// substituted, but the field selected from it can be looked up
+				if ob := d.info.ObjectOf(id); ob != nil {
+					if b, bound := env[ob]; bound && !refersTo(d.info, b, ob) {
+						lit := ast.Unparen(b)
+						if u, isU := lit.(*ast.UnaryExpr); isU && u.Op == token.AND {
+							lit = ast.Unparen(u.X)
+						}
+						if _, isCL := lit.(*ast.CompositeLit); isCL {
+							in = b
+						}
+					}
+				}
+			}
+			if in != x.X {
+				// a field of a struct literal: what the literal gives the field (nil for an absent pointer / interface field)
+				lit := ast.Unparen(in)
+				if u, isU := lit.(*ast.UnaryExpr); isU && u.Op == token.AND {
+					lit = ast.Unparen(u.X)
+				}
+				if cl, isCL := lit.(*ast.CompositeLit); isCL {
+					keyed, found := true, ast.Expr(nil)
+					for _, el := range cl.Elts {
+						kv, isKV := el.(*ast.KeyValueExpr)
+						if !isKV {
+							keyed = false
+							break
+						}
+						if k, isID := kv.Key.(*ast.Ident); isID && k.Name == x.Sel.Name {
+							found = kv.Value
+						}
+					}
+					if keyed && found != nil {
+						if callFree(found) || d.substCalls {
+							return d.subst(found, env, depth+1)
+						}
+						return x
+					}
+					if keyed {
+						switch sel.Obj().Type().Underlying().(type) {
+						case *types.Pointer, *types.Interface, *types.Slice, *types.Map, *types.Signature, *types.Chan:
+							return ast.NewIdent("nil")
+						}
+					}
+					if !callFree(in) && !d.substCalls {
+						return x
+					}
+				}
 				return &ast.SelectorExpr{X: in, Sel: x.Sel}
 			}
 		}
@@ -246,6 +618,91 @@ func (d *denum) split(cond ast.Expr, in []dstate) (t, f []dstate) {
 			return xf, xt
 		}
 	}
+	// nil compared with nil (a field that a struct literal leaves out)
+	if be, ok := cond.(*ast.BinaryExpr); ok && (be.Op == token.EQL || be.Op == token.NEQ) && len(in) > 0 {
+		if y, ok := ast.Unparen(be.Y).(*ast.Ident); ok && y.Name == "nil" {
+			var nils, others []dstate
+			for _, s := range in {
+				x, ok := ast.Unparen(d.subst(be.X, s.env, 0)).(*ast.Ident)
+				if ok && x.Name == "nil" && (d.info.ObjectOf(x) == nil || d.info.ObjectOf(x).Pkg() == nil) {
+					nils = append(nils, s)
+				} else {
+					others = append(others, s)
+				}
+			}
+			if len(nils) > 0 {
+				if len(others) > 0 {
+					t, f = d.split(cond, others)
+				}
+				if be.Op == token.EQL {
+					return append(t, nils...), f
+				}
+				return t, append(f, nils...)
+			}
+		}
+	}
+	// a boolean constant
+	if d.info != nil {
+		if tv, ok := d.info.Types[cond]; ok && tv.Value != nil && tv.Value.Kind() == constant.Bool {
+			if constant.BoolVal(tv.Value) {
+				return in, nil
+			}
+			return nil, in
+		}
+		if id, ok := cond.(*ast.Ident); ok && (id.Name == "true" || id.Name == "false") && (d.info.ObjectOf(id) == nil || d.info.ObjectOf(id).Pkg() == nil) {
+			if id.Name == "true" {
+				return in, nil
+			}
+			return nil, in
+		}
+	}
+	// a field of a local that is bound on this path to a struct literal: the field's value in that literal (its zero value when absent)
+	if se, ok := cond.(*ast.SelectorExpr); ok && d.info != nil {
+		if id, ok := ast.Unparen(se.X).(*ast.Ident); ok {
+			ob := d.info.ObjectOf(id)
+			all := ob != nil && len(in) > 0
+			var vals []ast.Expr
+			for _, s := range in {
+				var fv ast.Expr
+				if b, bound := s.env[ob]; bound && ob != nil {
+					b = ast.Unparen(b)
+					if u, isU := b.(*ast.UnaryExpr); isU && u.Op == token.AND {
+						b = ast.Unparen(u.X)
+					}
+					if cl, isCL := b.(*ast.CompositeLit); isCL {
+						if t := d.info.TypeOf(cl); t != nil {
+							if _, isStruct := t.Underlying().(*types.Struct); isStruct {
+								fv = ast.NewIdent("false")
+								for _, el := range cl.Elts {
+									kv, isKV := el.(*ast.KeyValueExpr)
+									if !isKV {
+										fv = nil // positional literal: not interpreted
+										break
+									}
+									if k, isID := kv.Key.(*ast.Ident); isID && k.Name == se.Sel.Name {
+										fv = kv.Value
+									}
+								}
+							}
+						}
+					}
+				}
+				if fv == nil {
+					all = false
+					break
+				}
+				vals = append(vals, fv)
+			}
+			if all {
+				for i, s := range in {
+					bt, bf := d.split(vals[i], []dstate{s})
+					t = append(t, bt...)
+					f = append(f, bf...)
+				}
+				return
+			}
+		}
+	}
 	// a boolean variable bound on this path to a compound condition (ok := a && b; if ok {…}): split through the binding
 	if id, ok := cond.(*ast.Ident); ok && d.info != nil {
 		ob := d.info.ObjectOf(id)
@@ -283,8 +740,33 @@ func (d *denum) split(cond ast.Expr, in []dstate) (t, f []dstate) {
 	// a call of a package-local predicate whose body can be enumerated: its paths are spliced in, with the parameters
 	// bound to the arguments (virtual inlining), so a test moved into a helper reads like the inline test
 	if call, ok := cond.(*ast.CallExpr); ok && d.decls != nil && d.inlineDepth < 3 {
+		type fnBody struct {
+			Type *ast.FuncType
+			Body *ast.BlockStmt
+		}
+		var fd *fnBody
 		if fn := calleeOf(d.info, call); fn != nil {
-			if fd := d.decls[fn]; fd != nil && fd.Body != nil && fd.Type.Results != nil && len(fd.Type.Results.List) == 1 {
+			if x := d.decls[fn]; x != nil {
+				fd = &fnBody{x.Type, x.Body}
+			}
+		} else if id, isID := ast.Unparen(call.Fun).(*ast.Ident); isID && len(in) > 0 {
+			// a local predicate closure (is := func(x string) bool {…}): the same literal on every state
+			ob := d.info.ObjectOf(id)
+			var lit *ast.FuncLit
+			for i, s := range in {
+				l, _ := ast.Unparen(s.env[ob]).(*ast.FuncLit)
+				if l == nil || i > 0 && l != lit {
+					lit = nil
+					break
+				}
+				lit = l
+			}
+			if lit != nil {
+				fd = &fnBody{lit.Type, lit.Body}
+			}
+		}
+		if fd != nil {
+			if fd.Body != nil && fd.Type.Results != nil && len(fd.Type.Results.List) == 1 {
 				if rt := d.info.TypeOf(fd.Type.Results.List[0].Type); rt != nil && rt.String() == "bool" {
 					var prms []*ast.Ident
 					for _, p := range fd.Type.Params.List {
@@ -402,7 +884,22 @@ func (d *denum) run(stmts []ast.Stmt, in []dstate) []dstate {
 			}
 			return nil
 		case *ast.AssignStmt:
-			cur = traced(cur, s)
+			cur = d.inlineCallsIn(s, cur)
+			var done []dstate
+			rest := cur[:0:0]
+			for _, x := range cur {
+				if x.inlined == ast.Stmt(s) {
+					x.inlined = nil
+					done = append(done, x)
+				} else {
+					rest = append(rest, x)
+				}
+			}
+			cur = traced(rest, s)
+			if len(cur) == 0 {
+				cur = done
+				continue
+			}
 			if len(s.Lhs) == len(s.Rhs) {
 				for i := range s.Lhs {
 					cur = d.assign(s.Lhs[i], s.Rhs[i], cur)
@@ -414,6 +911,7 @@ func (d *denum) run(stmts []ast.Stmt, in []dstate) []dstate {
 					cur = d.assign(s.Lhs[k], &ast.IndexExpr{X: s.Rhs[0], Index: &ast.BasicLit{Kind: token.INT, Value: string(rune('0' + k))}}, cur)
 				}
 			}
+			cur = append(cur, done...)
 		case *ast.DeclStmt:
 			cur = traced(cur, s)
 			if gd, ok := s.Decl.(*ast.GenDecl); ok {
@@ -435,7 +933,19 @@ func (d *denum) run(stmts []ast.Stmt, in []dstate) []dstate {
 				}
 			}
 		case *ast.ExprStmt, *ast.DeferStmt:
-			cur = traced(cur, s)
+			cur = d.inlineCallsIn(s, cur)
+			// a call that was replaced by the statements of its body is not itself a statement of the path
+			var done []dstate
+			rest := cur[:0:0]
+			for _, x := range cur {
+				if x.inlined == ast.Stmt(s) {
+					x.inlined = nil
+					done = append(done, x)
+				} else {
+					rest = append(rest, x)
+				}
+			}
+			cur = append(traced(rest, s), done...)
 		case *ast.EmptyStmt:
 		case *ast.BlockStmt:
 			cur = d.run(s.List, cur)
@@ -715,17 +1225,78 @@ func (d *denum) havoc(st ast.Stmt, in []dstate) []dstate {
 	if len(assigned) == 0 {
 		return in
 	}
+	// a string variable that the loop only ever replaces by a part of itself (u = strings.TrimPrefix(u, p), u = u[1:])
+	// holds afterwards some substring of what it held before: <old>[:] rather than nothing
+	shrinks := map[types.Object]bool{}
+	for ob := range assigned {
+		shrinks[ob] = true
+	}
+	ast.Inspect(st, func(n ast.Node) bool {
+		switch x := n.(type) {
+		case *ast.AssignStmt:
+			for i, l := range x.Lhs {
+				id, ok := l.(*ast.Ident)
+				if !ok {
+					continue
+				}
+				ob := d.info.ObjectOf(id)
+				if len(x.Lhs) != len(x.Rhs) || x.Tok != token.ASSIGN || !d.substringOf(x.Rhs[i], ob) {
+					shrinks[ob] = false
+				}
+			}
+		case *ast.IncDecStmt:
+			if id, ok := x.X.(*ast.Ident); ok {
+				shrinks[d.info.ObjectOf(id)] = false
+			}
+		case *ast.RangeStmt:
+			for _, e := range []ast.Expr{x.Key, x.Value} {
+				if id, ok := e.(*ast.Ident); ok {
+					shrinks[d.info.ObjectOf(id)] = false
+				}
+			}
+		}
+		return true
+	})
 	out := make([]dstate, len(in))
 	for i, s := range in {
 		env := map[types.Object]ast.Expr{}
 		for k, v := range s.env {
 			if !assigned[k] {
 				env[k] = v
+			} else if shrinks[k] && !refersTo(d.info, v, k) {
+				env[k] = &ast.SliceExpr{X: v}
 			}
 		}
 		out[i] = dstate{conds: s.conds, env: env, trace: s.trace}
 	}
 	return out
+}
+
+// substringOf: e is ob, a slice of it, or ob with white space / a given prefix or suffix removed (a cutset trim is not
+// included: it removes any run of the cutset's characters, which a validator looking at the result never sees).
+func (d *denum) substringOf(e ast.Expr, ob types.Object) bool {
+	for i := 0; i < 8; i++ {
+		switch x := ast.Unparen(e).(type) {
+		case *ast.Ident:
+			return ob != nil && d.info.ObjectOf(x) == ob
+		case *ast.SliceExpr:
+			e = x.X
+		case *ast.CallExpr:
+			fn := calleeOf(d.info, x)
+			if fn == nil || len(x.Args) == 0 {
+				return false
+			}
+			switch fullName(fn) {
+			case "strings.TrimSpace", "strings.TrimPrefix", "strings.TrimSuffix":
+				e = x.Args[0]
+			default:
+				return false
+			}
+		default:
+			return false
+		}
+	}
+	return false
 }
 
 // membership: b is the synthetic second result of a map index expression (`_, ok := m[k]`) and m is a package-level
